@@ -155,7 +155,7 @@ fn random_partition(rng: &mut Rng, s: &[u8]) -> Vec<Vec<u8>> {
     let mut i = 0;
     while i < s.len() {
         // long streams get long chunks (the Gallina model appends to raw_buf: quadratic otherwise)
-        let (lo, max) = if s.len() > 4000 { (200, 4000) } else if rng.chance(1, 3) { (1, 3) } else { (1, 64) };
+        let (lo, max) = if s.len() > 100_000 { (s.len() / 8, s.len() / 2) } else if s.len() > 4000 { (200, 4000) } else if rng.chance(1, 3) { (1, 3) } else { (1, 64) };
         let max = max.min(s.len() - i);
         let n = rng.range(lo.min(max) as u64, max as u64) as usize;
         chunks.push(s[i..i + n].to_vec());
@@ -173,7 +173,7 @@ fn random_partition(rng: &mut Rng, s: &[u8]) -> Vec<Vec<u8>> {
 pub fn generate(seed: u64, n: usize, thorough: bool, out: &mut Vec<String>, stats: &mut Stats) {
     let mut rng = Rng::new(seed ^ 0xF4A3E);
     for i in 0..n {
-        let big = thorough && i % 50 == 0;
+        let big = thorough && i % 400 == 0;
         let s = gen_stream(&mut rng, big, stats);
         stats.max_stream = stats.max_stream.max(s.len());
         stats.cases += 1;
